@@ -208,9 +208,11 @@ func body(sc scenario) func(x *gosim.Exec) {
 					case aTry:
 						err = lock.TryLock(x.Ctx())
 					case aLock:
+						// the heart beat lives on a context derived from this one: it is released only after the unlock
+						// (cancelling it right after the acquire would stop the heart beat — and race with its start)
 						ctx, cancel := context.WithTimeout(x.Ctx(), 80*time.Millisecond)
+						defer cancel()
 						err = lock.Lock(ctx)
-						cancel()
 					case aLockTimeout:
 						err = lock.LockWithTimeout(x.Ctx(), 60*time.Millisecond)
 					}
